@@ -863,7 +863,7 @@ type plug struct {
 	geCalled     bool
 	geReqType    string
 	geEcho       string
-	toolAltered  bool // the envelope notation-core-go's signer built for the "honest-core" answer does not carry the request payload byte for byte
+	toolAltered  bool // the envelope notation-core-go's signer built for the "honest-core" answer does not state the descriptor of the request payload
 	harnessPanic string
 }
 
@@ -1119,7 +1119,7 @@ func (p *plug) GenerateEnvelope(_ context.Context, req *fw.GenerateEnvelopeReque
 		// is the answer honest? notation-core-go's JWS signer re-encodes the payload through a generic JSON value
 		// (numbers become float64): above 2^53 it may sign another size than the one it was given. Then this answer
 		// is one more adversarial answer (correctly signed over another size), not a control.
-		if got, err := refsig.Verify(format, env); err != nil || !bytes.Equal(got.Payload, payload) {
+		if got, err := refsig.Verify(format, env); err != nil || !samePayload(got.Payload, payload) {
 			p.toolAltered, p.delivered = true, true
 		}
 	} else {
@@ -1345,6 +1345,25 @@ func strictDescriptor(payload []byte, w *want) (d strictDesc, ambiguous bool, re
 		}
 	}
 	return d, false, ""
+}
+
+// samePayload: byte for byte, or two clean Notary payloads that state the same descriptor, sizes compared as
+// decimal text (a signer may reorder members).
+func samePayload(a, b []byte) bool {
+	if bytes.Equal(a, b) {
+		return true
+	}
+	da, ambA, whyA := strictDescriptor(a, nil)
+	db, ambB, whyB := strictDescriptor(b, nil)
+	if ambA || ambB || whyA != "" || whyB != "" || da.MT != db.MT || da.Digest != db.Digest || da.SizeText != db.SizeText || len(da.Ann) != len(db.Ann) {
+		return false
+	}
+	for k, v := range da.Ann {
+		if w, ok := db.Ann[k]; !ok || w != v {
+			return false
+		}
+	}
+	return true
 }
 
 func requestedEmpty(ann [][2]string, key string) bool {
